@@ -209,9 +209,10 @@ const (
 	modDot    key.Modifier = "verif-dot"
 	modFreeze key.Modifier = "verif-freeze"
 	modP2     key.Modifier = "verif-p2"
+	modBext   key.Modifier = "verif-bext"
 )
 
-var simMods = []key.Modifier{modRevive, modDot, modFreeze, modP2}
+var simMods = []key.Modifier{modRevive, modDot, modFreeze, modP2, modBext}
 
 type scriptedChar struct {
 	eng engine.Engine
@@ -337,6 +338,9 @@ func registerScripted() {
 	})
 	modifier.Register(modFreeze, modifier.Config{
 		BehaviorFlags: []model.BehaviorFlag{model.BehaviorFlag_STAT_CTRL, model.BehaviorFlag_DISABLE_ACTION},
+	})
+	modifier.Register(modBext, modifier.Config{
+		BehaviorFlags: []model.BehaviorFlag{model.BehaviorFlag_BREAK_EXTEND},
 	})
 	modifier.Register(modP2, modifier.Config{
 		Listeners: modifier.Listeners{
